@@ -443,13 +443,40 @@ func C19(c *Ctx) {
 		c.R.Check(underNotInv && afterMark, "C19-R3", "Run: countdown decremented once per accepted, non-inverted output", c.pos(dec), "dominated by the mark and by !Inverted", fmt.Sprintf("the countdown is not decremented exactly for accepted non-inverted outputs (under !Inverted=%v, after the mark=%v)", underNotInv, afterMark))
 		// inverted: error return
 		okInv := false
+		var invFn *ssa.Function // the function that fails the step for a forbidden output
 		if mErr := errResultIndex(M); mErr >= 0 {
 			for _, b := range M.Blocks {
 				if ret, isRet := b.Instrs[len(b.Instrs)-1].(*ssa.Return); isRet && mErr < len(ret.Results) && !ssau.IsNilConst(ret.Results[mErr]) {
 					for _, f := range flow.FactsAt(b) {
 						if _, is := ssau.LoadOfField(f.Cond, prog.Abs("tools/expect"), "Output", "Inverted"); is && f.True && okMark && marks[0].Block().Dominates(b) {
-							okInv = true
+							okInv, invFn = true, M
 						}
+					}
+				}
+			}
+		}
+		if !okInv {
+			// the mark is set by a helper and the forbidden output fails in a caller of it: the error return lies
+			// under Inverted and where the helper's verdict "accepted" (true only past the mark) is known
+			for _, g := range anc {
+				gErr := errResultIndex(g)
+				if g == M || gErr < 0 || okInv {
+					continue
+				}
+				for _, b := range g.Blocks {
+					ret, isRet := b.Instrs[len(b.Instrs)-1].(*ssa.Return)
+					if !isRet || gErr >= len(ret.Results) || ssau.IsNilConst(ret.Results[gErr]) || provablyNil(ret.Results[gErr], b) {
+						continue
+					}
+					inv := false
+					for _, f := range flow.FactsAt(b) {
+						if _, is := ssau.LoadOfField(f.Cond, prog.Abs("tools/expect"), "Output", "Inverted"); is && f.True {
+							inv = true
+						}
+					}
+					if inv && holdsAt(b, nil, pastMark, 0) {
+						okInv, invFn = true, g
+						break
 					}
 				}
 			}
@@ -494,7 +521,7 @@ func C19(c *Ctx) {
 			}
 			return true
 		}
-		okInv = okInv && errGoesUp(M, 0)
+		okInv = okInv && errGoesUp(invFn, 0)
 		c.R.Check(okInv, "C19-R3", "Run: a matched forbidden output fails at once", c.P.Pos(F.Pos()), "error return under Inverted after acceptance", "a forbidden (inverted) output that matches does not fail the step")
 		// all-satisfied exit: need == 0 test leading to return nil must be dominated by the line read
 		var readSite ssa.Instruction
